@@ -60,33 +60,22 @@ var sortSets = [...]sortSet{
 	months,
 }
 
+// ByContextualEx orders names of a known set (weekdays, then months) by their position in the
+// set and after everything else, which is ordered by fallbackSort. Every pair is decided on its
+// own, so the result does not depend on which values happen to be compared first
 func ByContextualEx(fallbackSort NameSorter) NameSorter {
-	var set sortSet
-	fallback := false
-
 	return func(a, b string) bool {
-		if !fallback && set == nil {
-			set = inferSortSetByValue(a)
-			if set == nil {
-				fallback = true
-			}
+		setA, posA := lookupSortSet(a)
+		setB, posB := lookupSortSet(b)
+		switch {
+		case setA < 0 && setB < 0:
+			return fallbackSort(a, b)
+		case setA != setB:
+			return setA < setB
+		case posA != posB:
+			return posA < posB
 		}
-
-		// Try using the set
-		if !fallback {
-			lowerA := strings.ToLower(a)
-			lowerB := strings.ToLower(b)
-			v0, ok0 := set[lowerA]
-			v1, ok1 := set[lowerB]
-			if !ok0 || !ok1 {
-				fallback = true
-			} else {
-				return v0 < v1
-			}
-		}
-
-		// Fallback
-		return fallbackSort(a, b)
+		return a < b
 	}
 }
 
@@ -94,12 +83,13 @@ func ByContextual() NameSorter {
 	return ByContextualEx(ByNameSmart)
 }
 
-func inferSortSetByValue(val string) sortSet {
+// lookupSortSet returns the index of the set val belongs to and its position in it, or -1
+func lookupSortSet(val string) (set, pos int) {
 	val = strings.ToLower(val)
-	for _, set := range sortSets {
-		if _, ok := set[val]; ok {
-			return set
+	for i, set := range sortSets {
+		if pos, ok := set[val]; ok {
+			return i, pos
 		}
 	}
-	return nil
+	return -1, 0
 }
